@@ -12,7 +12,8 @@ def basic_codes(ctx):
     from qecsim.models.basic import FiveQubitCode, SteaneCode
     from qecsim import paulitools as pt
     from harness.c07 import gf2_rank
-    for code in (FiveQubitCode(), SteaneCode()):
+
+    def check(code, stage):
         n, k, d = code.n_k_d
         S = code.stabilizers
         rS = gf2_rank(S)
@@ -25,13 +26,32 @@ def basic_codes(ctx):
                 found = p
                 break
         w = None if found is None else sum(1 for c in found if c != 'I')
-        ctx.count(('basic-distance', repr(code)), True, 'basic-distance', {'code': repr(code), 'd': d, 'lightest_logical': found})
+        ctx.count(('basic-distance', repr(code), stage), True, 'basic-distance', {'code': repr(code), 'd': d, 'lightest_logical': found})
         if w != d:
             ctx.violation('basic-distance', 'advertised d is not the minimum weight of a non-trivial logical',
-                          {'code': repr(code), 'd': d, 'lightest_logical': found})
+                          {'code': repr(code), 'd': d, 'lightest_logical': found, 'stage': stage})
         for L in code.logicals:
             if pt.bsf_wt(L) < d:
-                ctx.violation('basic-logical-lighter', 'a supplied logical is lighter than d', {'code': repr(code)})
+                ctx.violation('basic-logical-lighter', 'a supplied logical is lighter than d', {'code': repr(code), 'stage': stage})
+
+    codes = (FiveQubitCode(), SteaneCode())
+    for code in codes:
+        check(code, 'fresh')
+    # the caller's own scratch work with the public conversion functions on the same operator lists (results are the
+    # caller's to overwrite) must not change what these and later code objects publish
+    for code in codes:
+        for mat in (code.stabilizers, code.logical_xs, code.logical_zs):
+            paulis = pt.bsf_to_pauli(mat)
+            for arg in (paulis, list(paulis), tuple(paulis), paulis[0]):
+                a = pt.pauli_to_bsf(arg)
+                a[...] = 0
+                a[..., 0] = 1
+            b = np.array(mat).copy()
+            q = pt.bsf_to_pauli(b)
+            b[...] = 1
+            del q
+    for code in codes + (FiveQubitCode(), SteaneCode()):
+        check(code, 'after the caller overwrote its own pauli_to_bsf results for the same operator lists')
 
 
 def low_weight_sweep(ctx):
